@@ -111,6 +111,11 @@ class Interp:
         if name == "implies":
             a, b = ops.truth(self, args[0]), ops.truth(self, args[1])
             return VBool(t=z3.Implies(a.term(), b.term()))
+        if name == "conforms":
+            r_ = self.resolve(args[0])
+            if not isinstance(r_, VRef) or self.hobj(r_).kind != "inst":
+                return FALSE
+            return VBool(t=z3.simplify(self.contracts.conforms(self, r_)))
         if name == "hexbytes":
             s_ = self.resolve(args[0])
             if s_.c is not None:
